@@ -91,6 +91,8 @@ STRACE = {"ok": None}
 
 def check_strace():
     """The write trace of the clang process needs strace; where it cannot trace, the runs are made without it (recorded)."""
+    if STRACE["ok"] is None and os.environ.get("VERIF_C35_NOSTRACE"):        # self-test of the fallback
+        STRACE["ok"] = False
     if STRACE["ok"] is None:
         rc, out, err = vlib.run(["strace", "-qq", "-o", "/dev/null", "-e", "trace=write", "true"], timeout=60)
         STRACE["ok"] = rc == 0
